@@ -333,21 +333,52 @@ def p_fs(fig, kind, info):
 def p_left(fig, kind, info):
     if not _close(fig.subplotpars.left, 0.21):
         return "left margin %r, expected 0.21" % fig.subplotpars.left
+    return _pixels_late(fig, info)
 
 
 def p_right(fig, kind, info):
     if not _close(fig.subplotpars.right, 0.88):
         return "right margin %r, expected 0.88" % fig.subplotpars.right
+    return _pixels_late(fig, info)
 
 
 def p_top(fig, kind, info):
     if not _close(fig.subplotpars.top, 0.83):
         return "top margin %r, expected 0.83" % fig.subplotpars.top
+    return _pixels_late(fig, info)
 
 
 def p_bottom(fig, kind, info):
     if not _close(fig.subplotpars.bottom, 0.27):
         return "bottom margin %r, expected 0.27" % fig.subplotpars.bottom
+    return _pixels_late(fig, info)
+
+
+def _pixels_late(fig, info):
+    return _pixels(fig, info)
+
+
+def p_left0(fig, kind, info):
+    if not _close(fig.subplotpars.left, 0.0):
+        return "left margin %r, expected 0" % fig.subplotpars.left
+    return _pixels(fig, info)
+
+
+def p_bottom0(fig, kind, info):
+    if not _close(fig.subplotpars.bottom, 0.0):
+        return "bottom margin %r, expected 0" % fig.subplotpars.bottom
+    return _pixels(fig, info)
+
+
+def _pixels(fig, info):
+    """with explicit margins the image is the whole canvas: figure size x dpi pixels"""
+    px = info.get("png_size")
+    if px is None:
+        return "no png written"
+    w, h = fig.get_size_inches()
+    dpi = info.get("dpi", 100)
+    if abs(px[0] - w * dpi) > 1 or abs(px[1] - h * dpi) > 1:
+        return "png is %sx%s pixels, expected %gx%g (figure %gx%g in at %g dpi, explicit margins)" % (px[0], px[1], w * dpi, h * dpi, w, h, dpi)
 
 
 def p_nomargin(fig, kind, info):
@@ -432,6 +463,8 @@ OPTIONS = {
     "right": (["-right", "0.88"], ["std", "loc", "pithist", "igncontrib", "against"], p_right, "margin2"),
     "top": (["-top", "0.83"], ["std", "loc", "pithist", "igncontrib", "against"], p_top, "margin3"),
     "bottom": (["-bottom", "0.27"], ["std", "loc", "pithist", "igncontrib", "against"], p_bottom, "margin4"),
+    "left0": (["-left", "0"], ["std", "loc", "pithist"], p_left0, "margin"),
+    "bottom0": (["-bottom", "0"], ["std", "loc", "pithist"], p_bottom0, "margin4"),
     "nomargin": (["-nomargin"], ["std", "loc", "pithist"], p_nomargin, "nomargin"),
     "a": (["-a"], ["std", "loc"], p_a, "a"),
     "af-lat": (["-a", "-af", "lat"], ["loc"], make_af("lat"), "a"),
@@ -440,7 +473,7 @@ OPTIONS = {
     "af-location": (["-a", "-af", "location"], ["loc"], make_af("location"), "a"),
 }
 EXCLUSIVE = [("nogrid", "gc"), ("nogrid", "gs"), ("nogrid", "gw"), ("nomargin", "left"), ("nomargin", "right"), ("nomargin", "top"),
-             ("nomargin", "bottom"), ("legfs0", "leg"), ("legfs0", "legloc"), ("legfs0", "legfs"), ("title", "titlefs"),
+             ("nomargin", "bottom"), ("nomargin", "left0"), ("nomargin", "bottom0"), ("legfs0", "leg"), ("legfs0", "legloc"), ("legfs0", "legfs"), ("title", "titlefs"),
              ("aspect", "ylim"), ("aspect", "xlim")]
 
 
@@ -515,7 +548,8 @@ def run_figure(ctx, kind, names, seed, tag):
         return None, "drawing failed: %r" % e
     info = {"F": F, "names": legnames if "leg" in names else [i["name"] for i in ds["inputs"]], "locs": locs,
             "png_size": png_size(out) if os.path.exists(out) else None,
-            "explicit_margins": any(n in names for n in ("left", "right", "top", "bottom")), "argv": argv, "file": out}
+            "explicit_margins": any(n in names for n in ("left", "right", "top", "bottom", "left0", "bottom0")),
+            "dpi": 50 if "dpi" in names else 100, "argv": argv, "file": out}
     return o.fig, info
 
 
@@ -590,7 +624,7 @@ def run_subsets(desc, ctx):
         check(ctx, kind, names, desc["seed"], "m%d" % ci, df)
 
 
-FAMILIES = [["gc", "gs", "gw"], ["left", "right", "top", "bottom", "fs", "dpi"], ["xrot", "yrot", "tickfs"],
+FAMILIES = [["gc", "gs", "gw"], ["left", "right", "top", "bottom", "fs", "dpi"], ["left0", "right", "bottom0", "top", "fs", "dpi"], ["xrot", "yrot", "tickfs"],
             ["title", "xlabel", "ylabel", "labfs"], ["titlefs", "xlabel", "labfs"], ["leg", "legfs", "legloc"],
             ["lc", "ls", "lw", "ma", "ms"], ["xlim", "ylim"], ["xlog", "ylog"], ["xticks", "yticks"], ["a", "tickfs"], ["afs", "labfs"]]
 
